@@ -28,15 +28,16 @@ func NewRelay(ctx context.Context, in, out ITracer, transformer Transformer) {
 	ch := in.Subscribe()
 	handle := out.RegisterSender()
 	go func() {
+		cancelled := ctx.Done()
 		for {
 			select {
 			case <-in.Done():
 				handle.Done()
 				in.Unsubscribe(ch)
 				return
-			case <-ctx.Done():
-				// wait until `in` Tracer is done
-				//return
+			case <-cancelled:
+				// wait until `in` Tracer is done (without spinning on the cancelled context)
+				cancelled = nil
 			case trace, ok := <-ch:
 				if ok {
 					traces := transformer(trace)
